@@ -17,6 +17,7 @@ the independent checker as oracle on the real images.
 import PyFatModel.Proofs.FatMachine
 import PyFatModel.Proofs.FatTable
 import PyFatModel.Proofs.FsRun
+import PyFatModel.Proofs.FsCheck
 
 open Model.Alloc Model.FatMachine Proofs.FatRep
 
@@ -104,6 +105,19 @@ theorem c04_fs_no_leak (v : Model.Fs.Vol) (count : Nat) (s : Model.Fs.St) (h : P
 theorem c04_fs_follow (v : Model.Fs.Vol) (count : Nat) (hv : Proofs.FsInv.VolOK v count) (s : Model.Fs.St)
     (h : Proofs.FsInv.Inv v count s) (n : Model.Fs.Node) (hn : n ∈ s.nodes) (hc : n.chain ≠ []) :
     chainOf v.p s.fat n.clus = .ok n.chain := Proofs.FsRun.follow_node hv h n hn hc
+
+/-- **from any image the verified checker accepts**: if the executable check of the hypotheses (`Model.Fs.checkInv`,
+    the driver's `fs check`, which the lock-step suite runs on the state it derives from every image — empty or
+    populated, from pyfatfs' mkfs or the independent formatter) returns no failed clause, the state satisfies the
+    invariant and the shape of files, and so does every state any history reaches from it -/
+theorem c04_fs_checked_start (fatType : Nat) (v : Model.Fs.Vol) (hvp : v.p = params fatType) (count : Nat) (s : Model.Fs.St)
+    (h : Model.Fs.checkInv v count s = []) (ops : List Model.Fs.Op) :
+    Proofs.FsInv.Inv v count (Model.Fs.run v s ops) ∧
+      Proofs.FsShape.ShapeNodes v.bpc (Model.Fs.run v s ops).nodes :=
+  Proofs.FsCheck.checked_start v count s (by rw [hvp]; exact params_ok fatType) h ops
+
+example : Model.Fs.checkInv ⟨params 12, 8, 512, true, 512, 1⟩ 6
+    ⟨[4088, 4095, 0, 0, 0, 0, 0, 0], 0, [], [], [4088, 4095, 0, 0, 0, 0, 0, 0], []⟩ = [] := by decide
 
 /-- **size against chain length**, every reachable state: a file without a cluster is empty; a file with a chain has
     exactly `max 1 ⌈size / bytes-per-cluster⌉` clusters (an empty file may keep one cluster) -/
